@@ -313,5 +313,5 @@ FACETS = [
     Facet("ijepa", guarded("ijepa", check_ijepa), strategy=lambda tier: IJEPA, budget={"quick": 2000, "thorough": 30000},
           shards={"quick": 6, "thorough": 12}, min_nontrivial={"quick": 300, "thorough": 3000}, case_timeout=120),
     Facet("ijepa-shared-step", guarded("ijepa-shared-step", check_ijepa_shared_step), strategy=lambda tier: IJEPA_W,
-          budget={"quick": 32, "thorough": 120}, shards={"quick": 8, "thorough": 12}, min_nontrivial={"quick": 10, "thorough": 40}, case_timeout=300),
+          budget={"quick": 64, "thorough": 120}, shards={"quick": 8, "thorough": 12}, min_nontrivial={"quick": 10, "thorough": 40}, case_timeout=300),
 ]
